@@ -342,6 +342,12 @@ func markReturned(v Value) {
 func (it *Interp) symbolicParam(t types.Type, name string, fr *Frame, pos token.Pos) Value {
 	switch u := t.Underlying().(type) {
 	case *types.Chan:
+		if u.Dir() == types.SendOnly {
+			// an output parameter (Pipe's t): produced by this function
+			s := it.newStream(name, pos, u.Elem(), fr)
+			s.OutParam = true
+			return s
+		}
 		s := it.newStream(name, pos, u.Elem(), fr)
 		s.Len = it.res.N
 		s.Lead = lin.C(0)
